@@ -76,17 +76,17 @@ PROPS = {
     ),
     'C11': dict(
         module='Hpfeeds.Props.C11', file='Hpfeeds/Props/C11.lean',
-        engines=[('aioclient', dict(prop='C11')), ('twclient', dict(prop='C11')), ('blkreactor', dict(prop='C11'))],
+        engines=[('aioclient', dict(prop='C11')), ('twclient', dict(prop='C11')), ('blkreactor', dict(prop='C11')), ('blkclient', dict(prop='C11'))],
         trusted=['asyncio task machinery / Twisted ClientService are library code: create_connection and the endpoint are scripted (accept/refuse), transports are fakes, time is virtual', 'application calls are injected at quiescent points of the session\'s own tasks'],
     ),
     'C12': dict(
         module='Hpfeeds.Props.C12', file='Hpfeeds/Props/C12.lean',
-        engines=[('aioclient', dict(prop='C12')), ('twclient', dict(prop='C12')), ('blkreactor', dict(prop='C12'))],
+        engines=[('aioclient', dict(prop='C12')), ('twclient', dict(prop='C12')), ('blkreactor', dict(prop='C12')), ('blkclient', dict(prop='C12'))],
         trusted=['asyncio.Queue / DeferredQueue are modelled as FIFO lists (library contract)', 'asyncio delivers no data_received after transport.close() or connection_lost'],
     ),
     'C13': dict(
         module='Hpfeeds.Props.C13', file='Hpfeeds/Props/C13.lean',
-        engines=[('aioclient', dict(prop='C13')), ('twclient', dict(prop='C13'))],
+        engines=[('aioclient', dict(prop='C13')), ('twclient', dict(prop='C13')), ('blkclient', dict(prop='C13'))],
         trusted=['real DNS/TCP failures are represented by the two outcomes accept / refuse; the liveness claim is proved in bounded-response form (DESIGN.md section 7, C13)', 'the harness reports connection_lost for every transport the client closed and advances the virtual clock by 5 s before judging close()'],
     ),
     'C20': dict(
